@@ -3,7 +3,7 @@
 name="$1"; prop="$2"; tier="${3:-quick}"
 cd /repo || exit 2
 [ -n "$(git status --porcelain)" ] && { echo "/repo not clean"; exit 2; }
-git apply "/verif/seeded/$name/patch.diff" || exit 2
+git apply "/verif/seeded/$name/patch.diff" || { echo "PATCH-DOES-NOT-APPLY $name" | tee "/verif/out/seed-$name-$prop.log"; exit 2; }
 ( cd /verif && ./check "$prop" "$tier" > "/verif/out/seed-$name-$prop.log" 2>&1; echo "exit=$?" >> "/verif/out/seed-$name-$prop.log" )
 git -C /repo checkout -- . 
 grep -E "^VIOLATION|^  obligation|exit=|^property|^UNDECIDED" "/verif/out/seed-$name-$prop.log" | head -12
